@@ -56,6 +56,8 @@ type Printer struct {
 	Mode  int
 	R     *core.Rand // nil: canonical spacing
 	Tight bool       // no blanks around symbolic operators / inside delimiters
+	// WideSpace lets the printer use tabs / newlines / runs of blanks around binary operators.
+	WideSpace bool
 }
 
 func (p *Printer) coin(num, den int) bool {
@@ -265,6 +267,12 @@ func (p *Printer) expr(e Expr) string {
 			rn = r.Op == "not" && pr >= 3
 		}
 		ls, rs := p.operand(x.L, ln), p.operand(x.R, rn)
+		if p.WideSpace && p.coin(1, 6) {
+			// other admissible blanks between tokens: tab, newline, several spaces
+			b1 := []string{"\t", "\n", "  ", " \n ", "\r\n"}[p.R.Intn(5)]
+			b2 := []string{"\t", "\n", "  ", " "}[p.R.Intn(4)]
+			return ls + b1 + x.Op + b2 + rs
+		}
 		if isWordOp(x.Op) {
 			return ls + " " + x.Op + " " + rs
 		}
